@@ -28,6 +28,8 @@ pub enum Shape {
     CapSpecial,
     /// the vector value moved to every admissible offset of an aligned arena (C12)
     Placement,
+    /// generated Stack/StackN grid entry (C11); handled by `grid::grid_run`
+    Grid,
 }
 
 /// words per operation record in history mode
@@ -678,6 +680,9 @@ pub fn run_body<C: Cfg>(spec: &Spec, shape: Shape, ch: &mut Ch, tr: &mut String,
             if !w.dead() {
                 w.step(ch, false, tr);
             }
+        }
+        Shape::Grid => {
+            let _ = write!(tr, "[{}] grid shape needs a grid configuration", C::NAME);
         }
         Shape::Placement => {
             let fi = ch.pick(nf) as usize;
